@@ -50,7 +50,7 @@ KindNo(k) == CHOOSE i \in 1..10 : <<"uri", "uris", "raw", "uripost", "jsonline",
                                     "grpcjson", "json">>[i] = k
 WNo(w)    == CHOOSE i \in 1..11 : <<<<1>>, <<1, 1>>, <<1, 1, 1>>, <<3>>, <<2, 2>>, <<4, 2>>, <<1, 2>>, <<6, 3, 3>>,
                                     <<1, 1, 1, 1>>, Ones(40), <<60, 40>>>>[i] = w
-IdOf(cc)   == (((((KindNo(cc.kind) * 2 + (IF cc.preload THEN 1 ELSE 0)) * 128 + cc.limit) * 8 + cc.passes) * 16
+IdOf(cc)   == (((((KindNo(cc.kind) * 2 + (IF cc.preload THEN 1 ELSE 0)) * 512 + cc.limit) * 8 + cc.passes) * 16
                  + WNo(cc.w)) * 4 + cc.nc) * 3 + cc.cut + 1
 CaseBody(cc, id) ==
               [kind |-> cc.kind, preload |-> cc.preload, limit |-> cc.limit, passes |-> cc.passes, w |-> cc.w,
@@ -61,7 +61,7 @@ CaseBody(cc, id) ==
 CaseOf(cc) == CaseBody(cc, IdOf(cc))
 
 \* ---- seeded random cells (M1, larger sizes): coordinates come from a file, everything else is computed here ----
-RandBase  == 10000000       \* ids of random cells start here
+RandBase  == 100000000      \* ids of random cells start here
 RandRows  == ndJsonDeserialize(IOEnv.VERIF_CELLS)
 RandCell(i) == LET r == RandRows[i] IN [kind |-> r.kind, preload |-> r.preload, limit |-> r.limit, passes |-> r.passes,
                                         w |-> r.w, nc |-> r.nc, cut |-> r.cut, id |-> r.id]
@@ -73,8 +73,14 @@ RandOK    == c.kind \in AllKinds /\ (c.preload => c.kind \in HttpKinds)
 SmallCells == CellsOf(AllKM, L04, P03, W3, C13, CutAll)
 BigCells   == CellsOf(AllKM, L04, P03, WMore, C13, CutAll)
 LargeCells == CellsOf(AllKM, LLarge, PLarge, WLarge, C13x, CutAll)
-QuickTable    == SmallCells \cup LargeCells
-ThoroughTable == BigCells \cup LargeCells
+\* limit >> entries: many rewinds before the bound (work after the bound would show)
+W33        == {<<1, 1, 1>>, <<4, 2>>}
+L300       == {300}
+P02x       == {0, 2}
+C2         == {2}
+DeepCells  == CellsOf(AllKM, L300, P02x, W33, C2, CutNone)
+QuickTable    == SmallCells \cup LargeCells \cup DeepCells
+ThoroughTable == BigCells \cup LargeCells \cup DeepCells
 \* generator run: INIT Gen*Init, NEXT GenNext, INVARIANT GenOut - one printed line per cell
 GenNext == UNCHANGED vars
 GenQuickInit    == InitWith(QuickTable \cup RandSet)
